@@ -216,6 +216,11 @@ func (rm *RequestManager) terminateRequest(requestID graphsync.RequestID, ipr *i
 		}
 	}
 	rm.connManager.Unprotect(ipr.p, requestID.Tag())
+	if ipr.state == graphsync.Queued {
+		// the request never reached (or was put back on) a worker: take its task off the queue so
+		// the queue does not keep reporting a pending request that no longer exists
+		rm.requestQueue.Remove(requestID, ipr.p)
+	}
 	delete(rm.inProgressRequestStatuses, requestID)
 	ipr.cancelFn()
 	if ipr.reconciledLoader != nil {
